@@ -5,6 +5,7 @@ package verifsim
 
 import (
 	"bytes"
+	"runtime/debug"
 	"compress/gzip"
 	"compress/zlib"
 	"errors"
@@ -275,6 +276,7 @@ type bufMeta struct {
 	owner    string
 	poisoned int // number of poisoned bytes (whole capacity)
 	freedAt  int // pool op counter when released
+	freedSite string
 }
 
 type simPool struct {
@@ -380,7 +382,7 @@ func (p *simPool) put(w *World, b *bytes.Buffer) bool {
 		m = &bufMeta{}
 		p.meta[b] = m
 	} else if m.free {
-		p.Violations = append(p.Violations, "buffer released twice")
+		p.Violations = append(p.Violations, "buffer released twice at "+panicSite(debug.Stack())+" (first release at "+m.freedSite+")")
 		if w != nil {
 			w.Logf("pool.put", "DOUBLE")
 		}
@@ -401,6 +403,7 @@ func (p *simPool) put(w *World, b *bytes.Buffer) bool {
 	}
 	m.free = true
 	m.freedAt = p.ops
+	m.freedSite = firstSite(panicSite(debug.Stack()))
 	if p.plan.Poison {
 		// make the whole backing array recognisable; keep the buffer's own length so that a missing
 		// Reset on reuse hands stale (poison) bytes to whoever gets it next
